@@ -609,8 +609,8 @@ Proof.
 Qed.
 
 (* remove_args runs in lock-step with spec_injects *)
-Lemma remove_args_refines inj : forall b, good b ->
-  match remove_args b inj, spec_injects inj (fb_sig b) with
+Lemma remove_args_refines tv inj : forall b, good b ->
+  match remove_args tv b inj, spec_injects_opt tv inj (fb_sig b) with
   | Ok b', Ok s' => good b' /\ fb_sig b' = s' /\ same_meta b b'
   | Raise _, Raise _ => True
   | _, _ => False
@@ -618,18 +618,19 @@ Lemma remove_args_refines inj : forall b, good b ->
 Proof.
   induction inj as [|n r IH]; intros b G.
   - simpl. split; [exact G | split; [reflexivity | apply same_meta_refl]].
-  - cbn [remove_args spec_injects]. unfold spec_inject.
+  - cbn [remove_args spec_injects_opt]. unfold spec_inject_opt.
     destruct (list_remove n (fb_args b)) as [args'|] eqn:LA.
     + destruct (remove_arg_pos b n args' G LA) as [b' [E [G' [S [M V]]]]].
       rewrite E, removable_exists, (list_remove_some_mem _ _ _ LA). simpl. rewrite <- S.
-      specialize (IH b' G'). destruct (remove_args b' r), (spec_injects r (fb_sig b')); try exact IH.
+      specialize (IH b' G'). destruct (remove_args tv b' r), (spec_injects_opt tv r (fb_sig b')); try exact IH.
       destruct IH as [? [? ?]]. split; [assumption | split; [assumption | eapply same_meta_trans; eassumption]].
     + destruct (list_remove n (fb_kwonly b)) as [kwonly'|] eqn:LK.
       * destruct (remove_arg_kw b n kwonly' G LA LK) as [b' [E [G' [S [M V]]]]].
         rewrite E, removable_exists, (list_remove_some_mem _ _ _ LK), orb_true_r. rewrite <- S.
-        specialize (IH b' G'). destruct (remove_args b' r), (spec_injects r (fb_sig b')); try exact IH.
+        specialize (IH b' G'). destruct (remove_args tv b' r), (spec_injects_opt tv r (fb_sig b')); try exact IH.
         destruct IH as [? [? ?]]. split; [assumption | split; [assumption | eapply same_meta_trans; eassumption]].
       * destruct (remove_arg_missing b n LA LK) as [E X]. rewrite E, X, has_varkw_fb.
+        destruct tv; [|destruct (fb_varkw b); exact I].
         destruct (fb_varkw b); [apply IH; exact G | exact I].
 Qed.
 
@@ -826,7 +827,7 @@ Proof.
 Qed.
 
 (* remove_args / add_args raise ValueError only *)
-Lemma remove_args_raises inj : forall b e, remove_args b inj = Raise e -> e = ValueError.
+Lemma remove_args_raises tv inj : forall b e, remove_args tv b inj = Raise e -> e = ValueError.
 Proof.
   induction inj as [|n r IH]; intros b e H; [discriminate|].
   cbn [remove_args] in H. destruct (remove_arg b n) as [b'|e'] eqn:E.
@@ -834,7 +835,8 @@ Proof.
   - assert (e' = ValueError).
     { unfold remove_arg in E. destruct (list_remove n (fb_args b)); [discriminate|].
       destruct (list_remove n (fb_kwonly b)); [discriminate|]. inversion E; reflexivity. }
-    subst e'. destruct (fb_varkw b); [eapply IH; exact H | inversion H; reflexivity].
+    subst e'. destruct tv; [|destruct (fb_varkw b); inversion H; reflexivity].
+    destruct (fb_varkw b); [eapply IH; exact H | inversion H; reflexivity].
 Qed.
 
 Lemma add_args_raises exp : forall b e, add_args b exp = Raise e -> e = ValueError.
@@ -860,7 +862,7 @@ Record wf_obj (f : pyfunc) : Prop := {
    attributes that one carried, and a body that passes its own parameters on. *)
 Theorem update_wrapper_opt_refines o gid f inj exp :
   wf_func f -> Forall (fun nd => fst nd <> 0) exp ->
-  match update_wrapper_opt o gid f inj exp, spec_wraps (func_sig f) inj exp with
+  match update_wrapper_opt o gid f inj exp, spec_wraps_opt (o_inject_to_varkw o) (func_sig f) inj exp with
   | Ok g, Ok s =>
       sig_of (b_func g) = Ok s /\
       f_name (b_func g) = f_name f /\ f_doc (b_func g) = f_doc f /\
@@ -876,10 +878,10 @@ Theorem update_wrapper_opt_refines o gid f inj exp :
   end.
 Proof.
   intros WF NZ. destruct (from_func_good f WF) as [b0 [E0 [G0 [S0 [Mn [Md [Mm Ma]]]]]]].
-  unfold update_wrapper_opt, spec_wraps. rewrite E0, <- S0.
-  pose proof (remove_args_refines inj b0 G0) as R.
-  pose proof (remove_args_raises inj b0) as RR.
-  destruct (remove_args b0 inj) as [b1|e1]; destruct (spec_injects inj (fb_sig b0)) as [s1|e1'];
+  unfold update_wrapper_opt, spec_wraps_opt. rewrite E0, <- S0.
+  pose proof (remove_args_refines (o_inject_to_varkw o) inj b0 G0) as R.
+  pose proof (remove_args_raises (o_inject_to_varkw o) inj b0) as RR.
+  destruct (remove_args (o_inject_to_varkw o) b0 inj) as [b1|e1]; destruct (spec_injects_opt (o_inject_to_varkw o) inj (fb_sig b0)) as [s1|e1'];
     try exact R; try contradiction.
   2:{ left. apply RR. reflexivity. }
   destruct R as [G1 [S1 M1]]. subst s1.
@@ -926,6 +928,8 @@ Theorem update_wrapper_refines_strong f inj exp :
   end.
 Proof.
   intros WF NZ. pose proof (update_wrapper_opt_refines default_options 0 f inj exp WF NZ) as R.
+  change (spec_wraps_opt (o_inject_to_varkw default_options) (func_sig f) inj exp)
+    with (spec_wraps (func_sig f) inj exp) in R.
   unfold update_wrapper.
   destruct (update_wrapper_opt default_options 0 f inj exp) as [g|e], (spec_wraps (func_sig f) inj exp) as [s|e'];
     try exact R.
